@@ -179,6 +179,7 @@ func cmdCheck(args []string) int {
 		fmt.Println("TOOL-ERROR: cannot load packages:", err)
 		return 2
 	}
+	prog.curProp = *prop
 	timeout := 20 * time.Second
 	if *tier == "thorough" {
 		timeout = 90 * time.Second
@@ -308,6 +309,11 @@ func cmdCheck(args []string) int {
 			r.Res = SolverResult{Status: "unknown", Solver: "kbv-ssa-scan", Output: "plain accesses: " + strings.Join(bad, ", ")}
 		}
 		structural = append(structural, r)
+	}
+	for _, ex := range pc.Extra {
+		if ex == "metrics" {
+			structural = append(structural, metricObligations(prog)...)
+		}
 	}
 	// global invariants: proved from the package initialisers
 	for _, pk := range prog.pkgs {
